@@ -11,9 +11,11 @@ capacity, and compared with the frame-level run:
 * `bytes_are_the_frames` — socket ++ buffer = the encodings of the frames written, in order: nothing dropped, reordered
   or rewritten, whatever the buffer size (byte-level `C03Pump.append_only`);
 * `never_later_than_frame_model` — the encoding of what the FRAME-level model has on the socket is a prefix of what the
-  byte-level run has on the socket: an automatic flush only ADDS bytes to the socket earlier. So every statement of
-  `C03Pump` of the form "… is on the socket after …" (`flushed_by_next_tick`, `not_ready_flushes_and_disarms`,
-  `respond_flushes`) holds for every buffer size, and `nothing_newer` (no new frame is written) is size-independent;
+  byte-level run has on the socket: an automatic flush only ADDS bytes to the socket earlier. The transfer of the
+  `C03Pump` statements of the form "… is on the socket after …" (`flushed_by_next_tick`, `not_ready_flushes_and_disarms`,
+  `respond_flushes`) to every buffer size is BY INSPECTION, not proved here: `frameRun` over `OAct` is a standalone fold
+  with the same `write f | flush` discipline as the output side of `Model.Pump.step`, but no theorem equates the two,
+  and no driver op runs `byteRun` (claim audit 2, item 18);
 * `flush_empties` / `buffer_bounded` — after a `Flush` nothing is buffered (`flushed_means_empty`), and the buffer never
   holds more than its capacity (for `output_buffer_size = -1`: at most one byte).
 Not claimed: WHICH `Write` boundaries the socket sees with a small buffer (a frame may be split over several `Write`s);
